@@ -830,7 +830,7 @@ theorem select_declared_2xx (rs : List Resp) (s : Nat) (h2 : 200 ≤ s ∧ s < 3
     simp only [if_true, Option.some.injEq] at hya
     rw [← hya]
 
-theorem tyDispatchRet_needsStructure {t : PyTy} (h : (tyDispatchRet t).needsStructure = true) :
+theorem tyDispatchRet_needsStructure {k : Str} {t : PyTy} (h : (tyDispatchRet k t).needsStructure = true) :
     useCattrs t = true := by
   unfold tyDispatchRet at h
   split at h
